@@ -177,8 +177,8 @@ pub fn run_program(sess: &mut Session, src: &str, names: bool) -> Vec<String> {
                     match p.as_rule() {
                         Rule::identifier => {
                             let ident = p.as_str();
-                            if let Some(value) = sess.bindings.get(ident) {
-                                if validate_portable_value(&value, &sess.heap.borrow(), &sess.bindings).is_err() {
+                            if let Ok(value) = &r {
+                                if validate_portable_value(value, &sess.heap.borrow(), &sess.bindings).is_err() {
                                     out_err = true;
                                 } else if let Ok(ser) = value.to_serializable_value(&sess.heap.borrow()) {
                                     sess.outputs.insert(ident.to_string(), ser);
